@@ -117,7 +117,7 @@ Section Auth.
                 if negb (c_oidc c) then AErr EInvalidRequest
                 else if negb (String.eqb (c_method c) m_pkjwt) then AErr EInvalidClient
                 else if negb (match as_key_of a with Some k => String.eqb k cid | None => false end) then AErr EInvalidClient
-                else if negb (as_time_ok a) then AErr (EOther "error")  (* ValidationError.Inner is a plain error *)
+                else if negb (as_time_ok a) then AErr EInvalidClient  (* ValidationError.Inner, a plain error, is wrapped as invalid_client *)
                 else if negb (String.eqb (as_iss a) cid) then AErr EInvalidClient
                 else if negb (match as_sub a with Some s => String.eqb s cid | None => false end) then AErr EInvalidClient
                 else if negb (as_jti a) then AErr EInvalidClient
@@ -266,8 +266,9 @@ Section Endpoints.
     end.
 
   (* NewPushedAuthorizeRequest, with request parameters that newAuthorizeRequest accepts for
-     every registered client: authentication errors are re-labelled by [par_err]; the
-     request is then built for the client named by the form's client_id when there is one *)
+     every registered client: authentication errors are re-labelled by [par_err]; the request is
+     built for the client named by the form's client_id when there is one (an unknown one is
+     invalid_client), and then refused (invalid_request) unless that client is the authenticated one *)
   Definition par_endpoint (rq : request) (has_request_uri : bool) : obs :=
     match authenticate cmp st rq with
     | AErr e => Obs (par_err e) "" []
@@ -277,7 +278,10 @@ Section Endpoints.
           let cid := if nonempty (r_fid rq) then r_fid rq else c_id c in
           match lookup st cid with
           | None => Obs "invalid_client" "" []
-          | Some c' => Obs "" (c_id c') []
+          | Some c' =>
+              (* the pushed request must belong to the client that authenticated *)
+              if String.eqb (c_id c') (c_id c) then Obs "" (c_id c') []
+              else Obs "invalid_request" "" []
           end
     end.
 
